@@ -116,4 +116,7 @@ func swarm(s *k.Spec, focus string) {
 	if (u>>16)%3 == 0 && focus != "" && s.Focus == "" {
 		s.Focus = focus
 	}
+	// wake-up order: in half of the runs some wake-ups queue behind the
+	// runnable goroutines instead of running next
+	s.Wake = []int{0, 0, 0, 0, 50, 200, 500, 900}[(u>>24)%8]
 }
